@@ -91,6 +91,11 @@ def run(ctx):
         p_units(ctx)
     except Exception as ex:          # out of reach for this run: undecided, never a violation
         ctx.obligation("p_units.out_of_reach", "converted_types.convert", "unknown", "engine", 0.0, detail=f"{type(ex).__name__}: {ex}", sample=True)
+    try:                             # filter_out_cats reads the partition values with util.ex_from_sep's pattern: it must agree with the split convention
+        from ._pathconv import p_hive_convention
+        p_hive_convention(ctx)
+    except Exception as ex:          # out of reach for this run: undecided, never a violation
+        ctx.obligation("p_hive_convention.out_of_reach", "util.ex_from_sep", "unknown", "engine", 0.0, detail=f"{type(ex).__name__}: {ex}", sample=True)
     try:
         from runtime import c05_superset
     except ImportError:
